@@ -200,6 +200,10 @@ func run(t *tape.Tape, cfg sim.Config, listen bool) (res sim.Result) {
 		r.ensureTerm = true
 		res.Stat("probe.close_on_context_done_enabled_never_triggered", 1)
 	}
+	if listen && t.Chance(1, 4) {
+		r.implicit = map[int]bool{1: true}
+		res.Stat("probe.instance_compiled_implicitly_next_to_another_of_the_same_binary", 1)
+	}
 	if t.Chance(1, 5) {
 		// guest-chosen debug sections (read when a stack trace is built): rows without a file
 		r.dwarf = true
